@@ -178,7 +178,7 @@ def others_unchanged(except_name=True):
 i.iter_post("step/PROBE-changes-nothing",
             f"implies({OK_LINE} and {CMD} == 'PROBE', {others_unchanged(False)} and {NO_CLEANUP} and {REPORTED} == 0)", prop="C11")
 i.iter_post("step/REGISTER-increments-only-that-count",
-            f"implies({OK_LINE} and {CMD} == 'REGISTER' and {KNOWN}, {CNT1} == {CNT0} + 1 and {others_unchanged()} and {NO_CLEANUP} and {REPORTED} == 0)", prop="C11")
+            f"implies({OK_LINE} and {CMD} == 'REGISTER' and {KNOWN}, {CNT1} == {CNT0} + 1 and {others_unchanged()} and {NO_CLEANUP} and {REPORTED} == 0)", prop=["C11", "C13"])   # C13: what is registered is what the end-of-life sweep destroys
 i.iter_post("step/UNREGISTER-forgets-only-that-name",
             f"implies({OK_LINE} and {CMD} == 'UNREGISTER' and {KNOWN} and {CNT0} > 0, {CNT1} == 0 and {others_unchanged()} and {NO_CLEANUP} and {REPORTED} == 0)", prop="C11")
 i.iter_post("step/MAYBE_UNLINK-above-one-only-decrements",
@@ -317,12 +317,15 @@ c.ensures("ensure/closes-nothing-but-a-dead-trackers-descriptor",
 c.ensures("ensure/a-living-tracker-is-kept", "implies(G.tracker_stable and not is_none(old(self._fd)), self._fd == old(self._fd) and self._pid == old(self._pid) "
           "and G.fd_open == old(G.fd_open) and G.tracker_spawns == old(G.tracker_spawns))", prop="C12")
 c.ensures("ensure/stable-tracker-means-no-descriptor-closed", "implies(G.tracker_stable, forall(Int, lambda fd: implies(old(G.fd_open[fd]), G.fd_open[fd])))", prop="C20")
-c.raises("ensure/a-failed-spawn-leaks-nothing-and-unblocks-signals", "BaseException",
+c.raises("ensure/a-failed-spawn-leaks-nothing-and-unblocks-signals-and-a-stderr-without-a-descriptor-never-prevents-the-launch", "BaseException",
          post="ite(log_count('raise:spawnv_passfds') >= 1, not G.sig_blocked, G.sig_blocked == old(G.sig_blocked)) and "
               "forall(Int, lambda fd: implies(G.fd_open[fd], old(G.fd_open[fd]))) and log_tags()[-1] == 'release' and "
               "implies(G.tracker_stable, forall(Int, lambda fd: implies(old(G.fd_open[fd]), G.fd_open[fd]))) and "
               "implies(G.tracker_stable and not is_none(old(self._fd)), self._fd == old(self._fd)) and "
-              "implies(not is_none(self._fd), G.fd_open[the(self._fd)] and not is_none(self._pid))", prop=["C12", "C20"])
+              "implies(not is_none(self._fd), G.fd_open[the(self._fd)] and not is_none(self._pid)) and "
+              # self-healing must not depend on what sys.stderr happens to be (captured, closed, replaced): a stderr without a descriptor is not passed,
+              # never a reason to fail (one clause: several `raises` of one class would be separate outcomes at the call sites)
+              "implies(log_count('raise:sys.stderr.fileno') == 1, log_arg('raise:sys.stderr.fileno', 0, 0) is not exc)", prop=["C12", "C20"])
 REP = "implies(not is_none(self._fd), G.fd_open[the(self._fd)] and not is_none(self._pid))"
 c.ensures("ensure/recorded-descriptor-is-open-on-return", REP, prop=["C12", "C20"])   # on exceptional exits: last conjunct of the raises clause below
 c.modifies("self._fd", "self._pid", "G.fd_open", "G.sig_blocked", "G.tracker_spawns", "G.pid_live", "G.joined")
